@@ -991,9 +991,33 @@ Definition validate_ts (tlspass : bool) (t : tserver) : bool :=
                else if t_host t then negb tls_secret else false in
   e_listener || e_host || e_up || e_action || e_tls.
 
-(* generateTransportServerConfig: [Spec.Action.Pass] first; UpstreamParameters / SessionParameters /
-   HealthCheck / HealthCheck.Match behind nil checks *)
-Definition gen_ts (t : tserver) : R unit := _ <- deref (t_action t) ;; Val tt.
+(* createTransportServerEx puts a SecretReference into SecretRefs only when
+   [Spec.TLS != nil && Spec.TLS.Secret != ""]; the map lookup in generateSSLConfig yields nil
+   otherwise *)
+Definition ts_secret_ref (t : tserver) : option unit :=
+  match t_tls t with Some true => Some tt | _ => None end.
+
+(* generateSSLConfig (internal/configs/transportserver.go) as REPAIRED by fixes/F43.diff:
+   [tls == nil || tls.Secret == ""] returns before [secretRef.Secret] *)
+Definition gen_ts_ssl (t : tserver) : R unit :=
+  match t_tls t with
+  | None | Some false => Val tt
+  | Some true => _ <- deref (ts_secret_ref t) ;; Val tt
+  end.
+
+(* the unpatched generateSSLConfig (finding F43): only [tls == nil] returns *)
+Definition gen_ts_ssl_old (t : tserver) : R unit :=
+  match t_tls t with
+  | None => Val tt
+  | Some _ => _ <- deref (ts_secret_ref t) ;; Val tt
+  end.
+
+(* generateTransportServerConfig: [Spec.Action.Pass] first (health check), then generateSSLConfig;
+   UpstreamParameters / SessionParameters / HealthCheck / HealthCheck.Match behind nil checks *)
+Definition gen_ts_with (ssl : tserver -> R unit) (t : tserver) : R unit :=
+  _ <- deref (t_action t) ;; ssl t.
+Definition gen_ts := gen_ts_with gen_ts_ssl.
+Definition gen_ts_old := gen_ts_with gen_ts_ssl_old.
 
 (* prior states: no GlobalConfiguration (a TCP/UDP TransportServer has no listener, nothing is
    generated for it); a GlobalConfiguration with a TCP and a UDP listener *)
@@ -1005,12 +1029,14 @@ Definition ts_active (tlspass : bool) (c : tctx) (t : tserver) : bool :=
   | _ => match c with TCGlobal => true | TCEmpty => false end
   end.
 
-Definition ts_observe (tlspass : bool) (c : tctx) (t : tserver) : crd_obs :=
+Definition ts_observe_with (gen : tserver -> R unit) (tlspass : bool) (c : tctx) (t : tserver) : crd_obs :=
   let rej := validate_ts tlspass t in
   {| c_validate := if rej then ORejected else OOk;
      c_store := if rej then ORejected else OOk;
-     c_extend := if rej then OOk else if ts_active tlspass c t then unit_outcome (gen_ts t) else OOk;
+     c_extend := if rej then OOk else if ts_active tlspass c t then unit_outcome (gen t) else OOk;
      c_delete := OOk |}.
+Definition ts_observe := ts_observe_with gen_ts.
+Definition ts_observe_old := ts_observe_with gen_ts_old.
 
 Inductive tsup_sh := TU0 | TU1 (hc : option bool).
 Record ts_shape := { tsh_listener : ts_listener; tsh_host : bool; tsh_tls : option bool; tsh_up : tsup_sh;
